@@ -40,6 +40,8 @@ Verdict(e) ==
     [] e.cls = "prop1" ->
          IF e.rk = "none" THEN V(e.id, Prop1BadNone(e.op, e.rt, e.p, e.a), "satisfying value but propagation reported infeasible")
          ELSE V(e.id, Prop1Bad(e.op, e.rt, e.p, e.a, e.r1), "satisfying value removed by propagation")
+    [] e.cls = "nbin" -> V(e.id, NBinBad(e.op, e.rt, e.a, e.b, e.r), "value of operator (three-valued) outside the nullable result")
+    [] e.cls = "nun" -> V(e.id, NUnBad(e.op, e.a, e.r), "value of operator (three-valued) outside the nullable result")
     [] e.cls = "bounds" -> V(e.id, BoundsBad(e.nodes, e.ranges, e.r), "expression value outside evaluated bounds")
     [] e.cls = "update" ->
          IF e.rk = "infeasible" THEN V(e.id, UpdateBadInfeasible(e.nodes, e.ranges, e.given), "satisfying assignment but reported infeasible")
